@@ -163,7 +163,9 @@ class Folder:
         if f[0] == "builtin":
             name = f[1]
             a = [self.fold(x) for x in args]
-            if kwargs:
+            if kwargs and name == "int" and len(kwargs) == 1 and kwargs[0][0] == "base" and len(a) == 1:
+                a.append(self.fold(kwargs[0][1]))
+            elif kwargs:
                 raise CannotFold(f"{name} with keywords")
             if name in ("frozenset", "set"):
                 return frozenset(*a)
@@ -186,6 +188,16 @@ class Folder:
                 except Exception as e:
                     raise CannotFold(f"dict: {e!r}")
             raise CannotFold(f"builtin call {name}")
+        if f[0] == "attr" and f[2] in ("items", "keys", "values", "get", "copy") and f[1][0] != "ext":
+            recv = self.fold(f[1])
+            if isinstance(recv, dict):
+                a = [self.fold(x) for x in args]
+                try:
+                    out = getattr(recv, f[2])(*a)
+                except Exception as e:
+                    raise CannotFold(f"dict.{f[2]}: {e!r}")
+                return list(out) if f[2] in ("items", "keys", "values") else out
+            raise CannotFold(f"method {f[2]} on {type(recv).__name__}")
         if f[0] == "attr" and f[2] in _STR_METHODS:
             recv = self.fold(f[1])
             if not isinstance(recv, (str, bytes)):
@@ -263,24 +275,44 @@ class Folder:
         return out
 
     def f_comp(self, t):
-        """A comprehension over one constant iterable whose element expression has a single form: evaluated element by
-        element (the element term is bound as a leaf)."""
+        """A comprehension over constant iterables (nested generators allowed, later ones may depend on earlier elements)
+        with one element form: evaluated element by element, the element terms bound as leaves."""
         kind, elts, iters = t[1], t[2], t[3]
         filters = t[4] if len(t) > 4 else ()
-        if len(iters) != 1 or len(elts) != 1:
-            raise CannotFold("comprehension with several generators / element forms")
-        elems = {x for part in (elts, filters) for e in part for x in _walk(e) if x[0] == "elem" and x[1] == iters[0]}
-        if len(elems) > 1:
-            raise CannotFold("comprehension element bound several times")
-        seq = self.fold(iters[0])
+        if len(elts) != 1 or not iters:
+            raise CannotFold("comprehension with several element forms")
+        pool = [x for part in (elts, filters, iters) for e in part for x in _walk(e) if x[0] == "elem"]
         out = []
-        for x in seq:
-            sub = Folder(self.model, {**self.leaves, **{el: x for el in elems}})
-            if all(sub.fold(f) for f in filters):
-                out.append(sub.fold(elts[0]))
+
+        def rec(i, leaves):
+            if i == len(iters):
+                sub = Folder(self.model, leaves)
+                if all(sub.fold(f) for f in filters):
+                    out.append(sub.fold(elts[0]))
+                return
+            sub = Folder(self.model, leaves)
+            seq = sub.fold(iters[i])
+            mine = {x for x in pool if x[1] == iters[i]}
+            if len(mine) > 1:
+                raise CannotFold("comprehension element bound several times")
+            if isinstance(seq, (set, frozenset)):
+                seq = sorted(seq, key=repr)
+            for x in seq:
+                rec(i + 1, {**leaves, **{el: x for el in mine}})
+            if len(out) > 200000:
+                raise CannotFold("comprehension too large to fold")
+        rec(0, dict(self.leaves))
         if kind == "dict":
             return {k_: v_ for k_, v_ in out}
         if kind == "set":
+            return frozenset(out)
+        return out
+
+    def f_ucomp(self, t):
+        out = [self.fold(v) for cs, v in t[2] if all(bool(self.fold(c)) for c in cs)]
+        if t[1] == "dict":
+            return {a: b for a, b in out}
+        if t[1] == "set":
             return frozenset(out)
         return out
 
@@ -334,6 +366,8 @@ def module_const(model: Model, module: str, name: str, folder: Folder | None = N
             if any(v != vals[0] for v in vals[1:]):
                 raise CannotFold(f"{module}.{name} has several different module-level values")
             v = vals[0]
+            if isinstance(v, (dict, list, set)) or (isinstance(v, frozenset) and False):
+                v = _apply_module_updates(model, r[1], r[2], sts[-1], v)
         else:
             raise CannotFold(f"{module}.{name} is a {r[0]}, not a constant")
     except CannotFold as e:
@@ -341,6 +375,69 @@ def module_const(model: Model, module: str, name: str, folder: Folder | None = N
         raise
     _MOD_CACHE[key] = v
     return v
+
+
+_IN_PLACE = ("update", "append", "extend", "add", "insert", "setdefault")
+
+
+def _apply_module_updates(model, module, name, after, value):
+    """A module-level table that is completed in place after its initialiser (`T.update({...})`, `T[k] = v`, also inside a
+    `for x in <constant>` loop at module level): the updates are replayed, in order, on a copy of the folded value."""
+    import copy
+    mi = model.module(module)
+    body = mi.tree.body
+    if after not in body:
+        return value
+    out = copy.deepcopy(value)
+    an = module_analyzer(model, module)
+
+    def term(expr):
+        res = an.eval(expr, State())
+        if len(res) != 1:
+            raise CannotFold(f"{module}.{name}: conditional expression in a module-level update")
+        return res[0][1]
+
+    def apply(st, leaves):
+        f = Folder(model, {**leaves, ("global", module, name): out})      # the table may refer to itself as built so far
+        if isinstance(st, ast.Expr) and isinstance(st.value, ast.Call) and isinstance(st.value.func, ast.Attribute) and \
+                isinstance(st.value.func.value, ast.Name) and st.value.func.value.id == name and st.value.func.attr in _IN_PLACE:
+            args = [f.fold(term(a)) for a in st.value.args]
+            kw = {k.arg: f.fold(term(k.value)) for k in st.value.keywords if k.arg}
+            try:
+                getattr(out, st.value.func.attr)(*args, **kw)
+            except Exception as e:
+                raise CannotFold(f"{module}.{name}.{st.value.func.attr}: {e!r}")
+            return True
+        if isinstance(st, ast.Assign) and len(st.targets) == 1 and isinstance(st.targets[0], ast.Subscript) and \
+                isinstance(st.targets[0].value, ast.Name) and st.targets[0].value.id == name:
+            try:
+                out[f.fold(term(st.targets[0].slice))] = f.fold(term(st.value))
+            except CannotFold:
+                raise
+            except Exception as e:
+                raise CannotFold(f"{module}.{name}[...] = ...: {e!r}")
+            return True
+        return False
+
+    def mentions(st):
+        return any(isinstance(n, ast.Name) and n.id == name for n in ast.walk(st))
+
+    for st in body[body.index(after) + 1:]:
+        if isinstance(st, (ast.FunctionDef, ast.AsyncFunctionDef, ast.ClassDef)):
+            continue
+        if apply(st, {}):
+            continue
+        if isinstance(st, ast.For) and isinstance(st.target, ast.Name) and not st.orelse and any(mentions(x) for x in st.body):
+            seq = Folder(model).fold(term(st.iter))
+            for x in seq:
+                leaves = {("global", module, st.target.id): x}
+                for inner in st.body:
+                    if not apply(inner, leaves) and mentions(inner):
+                        raise CannotFold(f"{module}.{name} is changed by a module-level statement the folder does not understand")
+            continue
+        if mentions(st) and any(isinstance(n, (ast.Call, ast.Subscript)) and isinstance(getattr(n, "ctx", None), (ast.Store, ast.Del)) for n in ast.walk(st)):
+            raise CannotFold(f"{module}.{name} is changed by a module-level statement the folder does not understand")
+    return out
 
 
 def module_value(model: Model, module: str, name: str):
